@@ -64,6 +64,9 @@ class HttpShard(ShardCMC):
         else:
             file_url += ".shard"
 
+        if length == 0:
+            # "bytes=N-(N-1)" is not a valid Range; nothing to transfer
+            return b""
         range_value = f"bytes={offset}-{offset+length-1}"
         resp = self._session.get(file_url, headers={
             "Range": range_value
